@@ -17,7 +17,7 @@ ForcedTransactionFailed event); event_inbox_root is written exactly once, after 
 root_calculator.root(); validate_forced_tx returns Ok only through the ok-edges of parse_tx_bytes,
 tx_is_valid_variant, relayed_tx_claimed_enough_max_gas and get_checked_tx; process_da runs only when
 the relayer is enabled, and relayed transactions are executed through execute_transaction_and_commit
-with both outcomes handled.
+with both outcomes handled. (6) valid forced transactions are pushed into the list process_da returns and that list is never re-assigned inside the DA-height loop; neither process_da nor the node's RelayerPort::get_events adapter reorders or filters the events (the adapter returns the EventsHistory entry as stored).
 """
 NOT_DECIDED = """The relayer's own contents per height (C29); Merkle arithmetic."""
 
